@@ -46,7 +46,7 @@ def fingerprint(ctx, corpus, full=True):
     for hs in corpus:
         for cat in (None, "admin"):
             dec.append((fp_item(lambda: ctx.identify(hs, category=cat)), fp_item(lambda: ctx.needs_update(hs, category=cat)),
-                        fp_item(lambda: ctx.verify(PW, hs, category=cat))))
+                        fp_item(lambda: ctx.verify(PW, hs, category=cat)) if full else None))
     fp["decisions"] = dec
     if full:
         for cat in (None, "admin"):
@@ -57,10 +57,15 @@ def fingerprint(ctx, corpus, full=True):
             def cost():
                 hs = ctx.hash(PW, category=cat)
                 s = ctx.identify(hs, category=cat)
-                return (s, len(hs) if s not in ("scram", "plaintext") else 0)
+                h_ = H.get(s)
+                base_ = getattr(h_, "wrapped", h_)
+                if not hasattr(base_, "from_string") or s in H.PLAIN:
+                    return (s, None, None)
+                p_ = base_.from_string(h_._unwrap_hash(hs) if hasattr(h_, "wrapped") else hs)
+                salt_ = getattr(p_, "salt", None)
+                return (s, len(salt_) if hasattr(salt_, "__len__") else None, getattr(p_, "ident", None))
             r = fp_item(cost)
-            # the cost of a new hash may vary inside the window (vary_rounds): record the scheme and the length of the
-            # string (salt size, ident, digest set), not the cost
+            # the cost of a new hash may vary inside the window (vary_rounds): record the scheme, salt size and ident, not the cost
             fp[f"newhash:{cat}"] = r
         fp["dummy_verify"] = fp_item(lambda: ctx.dummy_verify())
     return fp
